@@ -89,6 +89,10 @@ def run(pid, tier, ev=None, vd=None, finish=True):
         for k in range(4):
             jobs.append({"prog": "putdir", "program": {1: [("put", "d", None, "c2"), ("get", "d/k")], 2: [("put", "f", "c1", "c3"), ("get", "d")]},
                          "init": {"f": "c1", "d/k": "c1"}, "policy": "random", "seed": vlib.seed() * 17 + k, "src": "corpus"})
+        # the hub's own lock file addressed by a client as an ordinary path (it starts empty = "c0"): whatever the hub
+        # answers, the compare-and-swap of the OTHER clients must stay linearizable (schedule as in lock_identity)
+        jobs.append({"prog": "lockfile", "program": {1: [("put", ".copia/commit.lock", "c0", "c2")], 2: [("put", "f", "c1", "c2")], 3: [("put", "f", "c1", "c3")]},
+                     "init": {"f": "c1", ".copia/commit.lock": "c0"}, "track_lock": True, "policy": "lock_identity", "src": "corpus"})
         # the lock itself as the suspect: every multi-commit program under the lock-stress policy
         for prog, program in [("casrace3", hr.CASRACE3), ("three", hr.EXTRA["three"]), ("deldel", hr.EXTRA["deldel"]), ("putput", hr.PROGRAMS["putput"]),
                               ("create", hr.PROGRAMS["create"]), ("putdel", hr.PROGRAMS["putdel"])]:
